@@ -199,6 +199,46 @@ Print Assumptions c15_staged_eq_direct_partial.
 Print Assumptions c15_staged_eq_direct_docs.
 Print Assumptions c15_staged_breaks_without_roundtrip.
 
+(* ---- FULL statement, conditional on the lexer: for ALL sources and options, once the lexer yields no token with a
+   non-finite float (fixes/F14-lexer-rejects-nonfinite-float.diff), the parser builds values from finite tokens only and
+   the resolver keeps values finite.  `parse` = `lex` ; `parse_tokens`.  On today's HEAD the first hypothesis is false
+   of the implementation exactly for the F14 sources (stream `hyp:lex_finite`). ---- *)
+Section StagesLexer.
+  Variables src opts sql err errc tok : Type.
+  Variable lex : src -> res err (list tok).
+  Variable parse_tokens : list tok -> res err value.
+  Variable tok_finite : tok -> bool.
+  Variable resolve : value -> res err value.
+  Variable gen : opts -> value -> res err sql.
+  Variables tagNR tagSQL : err -> err.
+  Variable compose : src -> opts -> err -> err.
+  Variable compose1 : src -> err -> err.
+  Variable json_err : json -> err.
+  Variable core : err -> errc.
+  Notation parse := (parse_of src err tok lex parse_tokens).
+  Hypothesis Hparse_wt : forall s v, parse s = Ok v -> wt env dPL v.
+  Hypothesis Hresolve_wt : forall v w, resolve v = Ok w -> wt env dRQ w.
+  Hypothesis Hcore_compose : forall s o e, core (compose s o e) = core e.
+  Hypothesis Hcore_compose1 : forall s e, core (compose1 s e) = core e.
+  Hypothesis Hlex_finite : forall s ts, lex s = Ok ts -> forallb tok_finite ts = true.
+  Hypothesis Hparse_finite : forall ts v, forallb tok_finite ts = true -> parse_tokens ts = Ok v -> json_ok v = true.
+  Hypothesis Hresolve_finite : forall v w, json_ok v = true -> resolve v = Ok w -> json_ok w = true.
+
+  Theorem c15_staged_eq_direct_if_lexer_rejects_nonfinite : forall s o,
+    SerdeStaged.observe sql err errc core
+      (SerdeStaged.staged src opts sql err env dPL dRQ parse resolve gen tagNR tagSQL compose1 json_err s o)
+    = SerdeStaged.observe sql err errc core
+      (SerdeStaged.compile src opts sql err parse resolve gen tagNR tagSQL compose s o).
+  Proof.
+    assert (desc_ok env dPL = true /\ desc_ok env dRQ = true) as [H1 H2]
+      by (apply andb_true_iff; exact c15_roots_ok).
+    exact (staged_eq_direct_lexer src opts sql err errc tok env dPL dRQ lex parse_tokens tok_finite resolve gen tagNR tagSQL
+             compose compose1 json_err core c15_schema_ok H1 H2 Hparse_wt Hresolve_wt Hcore_compose Hcore_compose1
+             Hlex_finite Hparse_finite Hresolve_finite).
+  Qed.
+End StagesLexer.
+Print Assumptions c15_staged_eq_direct_if_lexer_rejects_nonfinite.
+
 (* the PL of `let m = 1e400`-like sources: Literal(Float(inf)) *)
 Local Open Scope N_scope.
 Definition s (l : list N) : str := l.
